@@ -115,10 +115,15 @@ def run(case, out):
 
             def check(name, fn, arg=q, expect=None):
                 exp = base if expect is None else expect
+                before = repr(arg)
                 try:
                     r = fn(arg)
                 except Exception as e:  # normalize()/rewrites must not raise
                     out.fail("c15.raises:%s:%s" % (name, type(e).__name__), {"q": qj, "err": repr(e)})
+                    return None
+                if repr(arg) != before:
+                    # a rewrite yields a query; it does not edit the one it was called on
+                    out.fail("c15.rewrite_changed_its_receiver:%s" % name, {"q": qj, "before": before[:300], "after": repr(arg)[:300]})
                     return None
                 try:
                     got = _docs(s, r)
@@ -167,10 +172,26 @@ def run(case, out):
                         out.fail("c15.normalize_not_idempotent", {"q": qj, "n1": repr(n1), "n2": repr(n2)})
             check("with_boost", lambda x: x.with_boost(case["boost"]))
             check("replace_absent", lambda x: x.replace("t", "zzz_absent", "new"))
+            # replacing a text that IS present changes the meaning, but still must not edit the receiver
+            for node in [n for n in walk(qj) if n["op"] in ("term", "phrase") and (n.get("x") or n.get("words"))][:3]:
+                present = node.get("x") or node["words"][0]
+                before = repr(q)
+                try:
+                    q.replace(node["f"], present, "zz_new")
+                except Exception as e:
+                    out.fail("c15.raises:replace_present:%s" % type(e).__name__, {"q": qj, "err": repr(e)})
+                    break
+                if repr(q) != before:
+                    out.fail("c15.rewrite_changed_its_receiver:replace_present",
+                             {"q": qj, "before": before[:300], "after": repr(q)[:300]})
+                    q = to_whoosh(qj)
+                    break
             # absent as a (field, text) pair although the same text occurs in another field of the query
             for fname, other in (("t", "w"), ("w", "t")):
+                def mentions(m, tx):
+                    return m.get("f") == fname and (m.get("x") == tx or tx in (m.get("words") or []))
                 texts = sorted(set(n["x"] for n in walk(qj) if n["op"] == "term" and n.get("f") == other
-                                   and not any(m["op"] == "term" and m.get("f") == fname and m["x"] == n["x"] for m in walk(qj))))
+                                   and not any(mentions(m, n["x"]) for m in walk(qj))))
                 for tx in texts[:2]:
                     check("replace_absent_in_that_field", lambda x, fname=fname, tx=tx: x.replace(fname, tx, "new"))
             check("apply_identity", lambda x: x.apply(_ident))
